@@ -280,6 +280,15 @@ Section WithH.
     do adb <- pack_u16 (ad + 1);
     Ok (slice wire 0 10 ++ adb ++ skipn 12 wire ++ rr, fst tc, snd tc).
 
+  (* a signed query and the response dns.message.make_response builds for it: the response is
+     signed under the same key with request_mac = the query's MAC, whatever its TSIG error
+     (`qwire` / `rbody`: the rendered query / response without TSIG) *)
+  Definition sign_exchange (qwire rbody : bytes) (k : key) (rdq rdr : tsig) (now : Z)
+    : res (bytes * bytes) :=
+    do q <- sign_message qwire k (kname k) rdq now [] None false;
+    do r <- sign_message rbody k (kname k) rdr (now + 1) (t_mac (snd (fst q))) None false;
+    Ok (fst (fst q), fst (fst r)).
+
   (* ---------- wire parsing (dns.wirebase.Parser); sequential, so furthest = current ---------- *)
 
   (* parser.get_bytes(n) with parser.end = endp *)
@@ -708,6 +717,14 @@ Definition run (c : obs) : obs :=
           | Lib e | Internal e => E e
           end
       | _, _, _ => E eBadCase
+      end
+  (* 11: signed query -> make_response(query, tsig_error) -> rendered response *)
+  | L [I 11; B qwire; B rbody; k; rdq; rdr; I now; L tab] =>
+      match key_of_obs k, tsig_of_obs rdq, tsig_of_obs rdr, htable_of_obs tab with
+      | Some k, Some rdq, Some rdr, Some t =>
+          obs_of_res (fun qr => L [B (fst qr); B (snd qr)])
+            (do rdq <- rdq; do rdr <- rdr; sign_exchange (H_tab t) qwire rbody k rdq rdr now)
+      | _, _, _, _ => E eBadCase
       end
   | _ => E eBadCase
   end.
